@@ -252,7 +252,7 @@ def api_job(job):
             sd = call("read_settings_data", inv.read_settings_data())
             if sd is not None:
                 want = {s.id_ for s in inv.settings()}
-                if not want <= set(sd) and fam == "ES":
+                if not want <= set(sd):
                     acc.fail("C11|api|%s|settings-keys" % fam, "missing %s" % sorted(want - set(sd))[:4], dict(case, call="read_settings_data"))
         ids = [s.id_ for s in inv.settings()]
         for sid in ids[(k % 3)::3]:
